@@ -39,6 +39,10 @@ structure Gateway where
 structure GwVS where
   vs : VirtualService
   gateways : List String := []
+  /-- `buildNameToServiceMapForHTTPRoutes`: the registry this VirtualService's destinations are resolved against - a
+      service of the VirtualService's own namespace first, any other service of that hostname otherwise (`none` = the
+      registry of the base context as it is). -/
+  services : Option (List Service) := none
   deriving Repr
 
 def Gateway.fullName (g : Gateway) : String := g.ns ++ "/" ++ g.name
@@ -87,6 +91,10 @@ def hostIntersection (hs os : List String) : List String :=
 def gwCtx (base : Ctx) (g : Gateway) (s : GwServer) : Ctx :=
   { base with gatewayNames := [g.fullName], listenPort := s.port, isTLS := s.hasTLS }
 
+/-- Context of one VirtualService at one server: `gwCtx` over the VirtualService's own view of the registry. -/
+def gwCtxV (base : Ctx) (g : Gateway) (s : GwServer) (v : GwVS) : Ctx :=
+  gwCtx (match v.services with | some l => { base with services := l } | none => base) g s
+
 /-- A gateway virtual host under construction: its (single) domain, routes, `RequireTls`, and the
     PROVENANCE of the routes - the route-memo keys appended, i.e. the pointer identity
     `collapseDuplicateRoutes` hashes. -/
@@ -119,7 +127,7 @@ def gwStep (base : Ctx) (g : Gateway) (s : GwServer) (acc : GwAcc) (v : GwVS) : 
   let known := acc.memo.find? (fun e => e.1 == memoKey g s v)
   let routes := match known with
     | some e => e.2
-    | none => compile (gwCtx base g s) v.vs
+    | none => compile (gwCtxV base g s v) v.vs
   if known.isNone && routes.isEmpty then acc     -- "no routes matched": the VirtualService is omitted
   else
     let memo := if known.isNone then acc.memo ++ [(memoKey g s v, routes)] else acc.memo
@@ -249,8 +257,8 @@ def contributors (base : Ctx) (gws : List Gateway) (vss : List GwVS) (routeName 
   (gwServers gws routeName).flatMap fun gs =>
     (boundTo gs.1 vss).filterMap fun v =>
       if (hostIntersection (namesForNamespace gs.2.hosts v.vs.ns) v.vs.hosts).any (fun h => lower h == d)
-          && vsApplies (gwCtx base gs.1 gs.2) v.vs then
-        some (gwCtx base gs.1 gs.2, v.vs)
+          && vsApplies (gwCtxV base gs.1 gs.2 v) v.vs then
+        some (gwCtxV base gs.1 gs.2 v, v.vs)
       else none
 
 /-- Domains of the route configuration: every intersecting host (of a VirtualService with a rule for
@@ -258,7 +266,7 @@ def contributors (base : Ctx) (gws : List Gateway) (vss : List GwVS) (routeName 
 def gwDomains (base : Ctx) (gws : List Gateway) (vss : List GwVS) (routeName : String) : List String :=
   (gwServers gws routeName).flatMap fun gs =>
     ((boundTo gs.1 vss).flatMap fun v =>
-      if vsApplies (gwCtx base gs.1 gs.2) v.vs then
+      if vsApplies (gwCtxV base gs.1 gs.2 v) v.vs then
         (hostIntersection (namesForNamespace gs.2.hosts v.vs.ns) v.vs.hosts).map lower else [])
     ++ (if gs.2.hasTLS && gs.2.redirect then gs.2.hosts.map (fun h => lower (stripNs h)) else [])
 
@@ -268,7 +276,7 @@ def domainRequiresTls (base : Ctx) (gws : List Gateway) (vss : List GwVS) (route
       (gs.2.hosts.any (fun h => lower (stripNs h) == d) ||
        (boundTo gs.1 vss).any (fun v =>
          (hostIntersection (namesForNamespace gs.2.hosts v.vs.ns) v.vs.hosts).any (fun h => lower h == d) &&
-         vsApplies (gwCtx base gs.1 gs.2) v.vs))
+         vsApplies (gwCtxV base gs.1 gs.2 v) v.vs))
 
 /-- **Gateway SPEC.**  The request is answered by the most specific domain of the route configuration
     for its authority (exact, longest wildcard, `*`; port ignored); plain-text requests to an
